@@ -119,6 +119,23 @@ class TriggerHandler:
 
     def trace_call(self, frame: FrameType, event: str, arg):
         """
+        Process a trace event, without ever letting a failure reach the application.
+
+        If an exception leaves a trace function, python raises it in the traced code and removes the trace function.
+
+        :param frame: the current frame
+        :param event: the event 'line', 'call', etc. That we are processing.
+        :param arg: the args
+        :return: None to ignore other calls, or our self to continue
+        """
+        try:
+            return self._trace_call(frame, event, arg)
+        except BaseException:
+            logging.exception("Cannot process trace event %s", event)
+            return self.trace_call
+
+    def _trace_call(self, frame: FrameType, event: str, arg):
+        """
         Process the data for a trace call.
 
         This is called by the python engine when an event is about to be called.
